@@ -961,6 +961,32 @@ func (e *SpecEnv) convert(a Val, t types.Type) Val {
 
 func (e *SpecEnv) callSpecFn(sf *SpecFn, argx []SpecExpr) Val {
 	c := e.c
+	if sf.Macro {
+		// `specfn macro`: the body is evaluated here, with the arguments' values, in the state of the using clause
+		if len(argx) != len(sf.Params) || sf.Body == nil {
+			e.fail("macro %s expects %d args and a body", sf.Name, len(sf.Params))
+		}
+		ne := e.clone()
+		ne.names = map[string]Val{}
+		ne.lets = nil
+		ne.results = nil
+		ne.resNames = nil
+		ne.f = nil
+		if dp := c.eng.typesPkg(sf.Pkg); dp != nil {
+			ne.pkg = dp
+		}
+		for i, a := range argx {
+			v := e.eval(a)
+			ne.names[sf.Params[i].Name] = e.coerce(v, e.specFnType(sf, sf.Params[i].Type))
+		}
+		if c.qdepth == 0 {
+			// keep the expansion self-contained (no global names for terms that may sit under binders later)
+			c.inlineDefs++
+			defer func() { c.inlineDefs-- }()
+		}
+		body := ne.eval(sf.Body)
+		return ne.coerce(body, e.specFnType(sf, sf.Ret))
+	}
 	c.declareSpecFn(e, sf)
 	if len(argx) != len(sf.Params) {
 		e.fail("specfn %s expects %d args", sf.Name, len(sf.Params))
@@ -982,6 +1008,13 @@ func (e *SpecEnv) callSpecFn(sf *SpecFn, argx []SpecExpr) Val {
 				ts = append(ts, fmt.Sprintf("(select %s (s_ref %s))", e.st.get(c.so.heapArr(st.Elem())), v.S))
 			}
 		}
+	}
+	// heaps the body reads are hidden parameters: pass their current contents
+	for _, k := range c.specFnHeaps[sf.Name] {
+		if e.st == nil {
+			e.fail("spec function %s reads memory (%s) and is used where no state exists", sf.Name, k.Name)
+		}
+		ts = append(ts, e.st.get(k))
 	}
 	rt := e.specFnType(sf, sf.Ret)
 	if len(ts) == 0 {
@@ -1039,12 +1072,41 @@ func (c *FuncCtx) declareSpecFn(e *SpecEnv, sf *SpecFn) {
 		// make the symbol known before evaluating the body
 		c.symIdx[name] = len(c.defs)
 	}
+	// the body is evaluated over a parameter state: every heap it reads (through pointers inside its arguments, e.g.
+	// the payload of a message) becomes a hidden parameter, passed by every caller from its own state
+	var used []HeapKey
+	ne.st = &State{c: c, kind: stParam, cache: map[string]string{}, used: &used, inl: true}
+	ne.old = ne.st
+	c.inlineDefs++ // terms of the body mention the parameters: they cannot get global names
+	defer func() { c.inlineDefs-- }()
 	body := ne.eval(sf.Body)
+	if sf.Rec && len(used) > 0 {
+		// the recursive calls inside the body were made before the heap list was known: evaluate again with it
+		for pass := 0; pass < 3; pass++ {
+			n := len(used)
+			c.specFnHeaps[sf.Name] = append([]HeapKey(nil), used...)
+			body = ne.eval(sf.Body)
+			if len(used) == n {
+				break
+			}
+		}
+	}
+	c.specFnHeaps[sf.Name] = append([]HeapKey(nil), used...)
+	for _, k := range used {
+		ps = append(ps, fmt.Sprintf("(%s!hp %s)", k.Name, k.Sort))
+		sorts = append(sorts, k.Sort)
+	}
 	body = ne.coerce(body, e.specFnType(sf, sf.Ret))
 	if sf.Opaque && len(ps) > 0 {
 		var pnames []string
 		for _, p := range sf.Params {
 			pnames = append(pnames, p.Name+"!p")
+			if _, isSlice := e.specFnType(sf, p.Type).Underlying().(*types.Slice); isSlice {
+				pnames = append(pnames, p.Name+"!arr")
+			}
+		}
+		for _, k := range used {
+			pnames = append(pnames, k.Name+"!hp")
 		}
 		app := fmt.Sprintf("(%s %s)", name, strings.Join(pnames, " "))
 		c.addDef(Def{Sym: name, Text: fmt.Sprintf("(declare-fun %s (%s) %s)", name, strings.Join(sorts, " "), rs)})
